@@ -6,6 +6,27 @@ framework internals.
 from __future__ import annotations
 
 ABSENT = "<absent>"
+
+
+class _Sentinel:
+    """A default with identity semantics only (`UNSET = object()`): no __eq__, not copyable into an equal object."""
+    __slots__ = ("n",)
+
+    def __init__(self, n):
+        self.n = n
+
+    def __repr__(self):
+        return f"<sentinel {self.n}>"
+
+
+SENTINELS = [_Sentinel(i) for i in range(4)]
+
+
+def resolve(v):
+    """Spec value -> python object ({'$sentinel': k} stands for one of the identity-only sentinel objects)."""
+    if isinstance(v, dict) and "$sentinel" in v:
+        return SENTINELS[v["$sentinel"]]
+    return v
 PERIODIC = {"R.disabledPeriodic", "R.teleopPeriodic", "R.testPeriodic", "R.robotPeriodic"}
 
 
